@@ -20,13 +20,23 @@ import ast
 import builtins as _b
 import math
 import operator
+import threading
 
 from .loader import AnchorError, ClassInfo, FuncInfo, Project, dotted, src
 from .loader import short as _short
 
 
+_SHORT_CACHE: dict = {}
+
+
 def short(n, k=200):
-    return _short(n, k)
+    # labels are requested for the same (immutable, project-owned) nodes over and over; the node is kept in the entry so
+    # that its id cannot be reused
+    key = (id(n), k)
+    hit = _SHORT_CACHE.get(key)
+    if hit is None or hit[0] is not n:
+        hit = _SHORT_CACHE[key] = (n, _short(n, k))
+    return hit[1]
 
 
 class Imprecise(Exception):
@@ -553,6 +563,12 @@ class Interp:
         return any(bc.is_dataclass() for b in ci.bases for bc in self.p.classes.get(b, []))
 
     def _dc_fields(self, ci):
+        cache = self.p.__dict__.setdefault("_dc_fields_cache", {})
+        if id(ci) not in cache:
+            cache[id(ci)] = (ci, self._dc_fields_uncached(ci))
+        return list(cache[id(ci)][1])
+
+    def _dc_fields_uncached(self, ci):
         out = []
         for b in ci.bases:
             for bc in self.p.classes.get(b, []):
@@ -592,8 +608,12 @@ class Interp:
         if isinstance(f, ClassRef):
             return self.instantiate(f.ci, args, kwargs)
         if isinstance(f, BoundBuiltin):
-            return self._method(f.recv, f.name, args, kwargs)
+            if isinstance(f.recv, _LazyGen):
+                return self._gen_method(f.recv, f.name, args)
+            return self._method(f.recv, f.name, [self._drained(a) for a in args], kwargs)
         if isinstance(f, ExtRef):
+            if f.name not in _LAZY_AWARE:
+                args = [self._drained(a) for a in args]
             return self._ext_call(f.name, args, kwargs)
         if isinstance(f, Unknown) and f.meth:
             return Unknown(f"{f.sym}({', '.join(_sym(a) for a in args)})")
@@ -630,17 +650,16 @@ class Interp:
             if _is_generator(node) and any((dotted(d) or "").split(".")[-1] == "contextmanager" for d in getattr(node, "decorator_list", [])):
                 return _GenCM(f, env)
             if _is_generator(node):
-                # generator function: run eagerly, collecting what it yields (sequential semantics; the consumer
-                # sees the same values in the same order — interleaving of effects with the consumer is not modelled)
-                env.vars["__yielded__"] = []
-                retval = None
-                try:
-                    self.exec_block(node.body, env, f.module)
-                except _Return as r_:
-                    retval = r_.v
-                out_ = _Iter(env.vars["__yielded__"])
-                out_.retval = retval
-                return out_
+                # generator function: the body is advanced on demand (see _LazyGen), so a consumer that stops early
+                # (all(), next(), break) leaves the rest of the body unexecuted, as in Python
+                def run_body(emit, _env=env, _node=node, _mod=f.module):
+                    _env.vars["__yielded__"] = emit
+                    try:
+                        self.exec_block(_node.body, _env, _mod)
+                    except _Return as r_:
+                        return r_.v
+                    return None
+                return _LazyGen(run_body, qual)
             try:
                 self.exec_block(node.body, env, f.module)
             except _Return as r:
@@ -665,7 +684,8 @@ class Interp:
         if not ok:
             raise Imprecise(f"yield from outside an interpreted generator at {module.rel}:{e.lineno}")
         sub = self.eval(e.value, env, module)
-        acc.extend(self.iterate(sub)) if not callable(acc) else [acc(x) for x in self.iterate(sub)]
+        for x in self.iter_lazy(sub):
+            acc(x) if callable(acc) else acc.append(x)
         return getattr(sub, "retval", None)
 
     def _bind(self, a: ast.arguments, args, kwargs, env, module, qual):
@@ -982,7 +1002,7 @@ class Interp:
 
     def x_For(self, st, env, module):
         it = self.eval(st.iter, env, module)
-        items = self.iterate(it, f"{module.rel}:{st.lineno}")
+        items = self.iter_lazy(it, f"{module.rel}:{st.lineno}")
         for x in items:
             self.assign(st.target, x, env, module)
             try:
@@ -993,7 +1013,49 @@ class Interp:
                 continue
         self.exec_block(st.orelse, env, module)
 
+    def iter_lazy(self, it, where_=""):
+        """host-level iteration over an interpreted iterable; a called generator is advanced one element at a time"""
+        if isinstance(it, _LazyGen):
+            n = 0
+            while True:
+                kind, v = it.advance()
+                if kind != "yield":
+                    return
+                n += 1
+                if n > 4 * self.MAX_LOOP:
+                    raise Imprecise(f"generator {it.qual} yields more than {4 * self.MAX_LOOP} items at {where_}")
+                yield v
+        else:
+            yield from self.iterate(it, where_)
+
+    def _drained(self, v):
+        if isinstance(v, _LazyGen):
+            out = _Iter(self.iter_lazy(v))
+            out.retval = v.retval
+            return out
+        return v
+
+    def _gen_method(self, g, name, args):
+        if name == "close":
+            g.close()
+            return None
+        if name == "__next__":
+            return self._next(g, [])
+        if name == "send" and args and args[0] is None:
+            return self._next(g, [])
+        raise Imprecise(f"generator method {name} is not modelled")
+
+    def _next(self, g, default):
+        kind, v = g.advance()
+        if kind == "yield":
+            return v
+        if default:
+            return default[0]
+        raise PyRaise(ExcVal("StopIteration", (v,) if v is not None else ()))
+
     def iterate(self, it, where_=""):
+        if isinstance(it, _LazyGen):
+            return self._drained(it)
         if isinstance(it, (list, tuple, set, frozenset)):
             return list(it)
         if isinstance(it, dict):
@@ -1652,7 +1714,7 @@ class Interp:
                 emit(env2)
                 return
             g = gens[i]
-            for x in self.iterate(self.eval(g.iter, env2, module)):
+            for x in self.iter_lazy(self.eval(g.iter, env2, module)):
                 e3 = Env(env2)
                 self.assign(g.target, x, e3, module)
                 if all(self.truth(self.eval(c, e3, module), short(c)) for c in g.ifs):
@@ -1665,7 +1727,24 @@ class Interp:
         return out
 
     def e_GeneratorExp(self, e, env, module):
-        return self.e_ListComp(e, env, module)
+        # lazy, like Python's: the outermost iterable is evaluated now, everything else on demand
+        first = self.eval(e.generators[0].iter, env, module)
+
+        def run_body(emit):
+            def rec(i, env2):
+                if i == len(e.generators):
+                    emit(self.eval(e.elt, env2, module))
+                    return
+                g = e.generators[i]
+                src_ = first if i == 0 else self.eval(g.iter, env2, module)
+                for x in self.iter_lazy(src_):
+                    e3 = Env(env2)
+                    self.assign(g.target, x, e3, module)
+                    if all(self.truth(self.eval(c, e3, module), short(c)) for c in g.ifs):
+                        rec(i + 1, e3)
+            rec(0, env)
+            return None
+        return _LazyGen(run_body, f"<genexpr {module.rel}:{e.lineno}>")
 
     def e_SetComp(self, e, env, module):
         return set(self.e_ListComp(e, env, module))
@@ -1832,15 +1911,19 @@ class Interp:
         if name == "zip":
             return list(zip(*[self.iterate(a) for a in args]))
         if name in ("any", "all"):
-            vals = [self.truth(x) for x in self.iterate(args[0])]
-            return any(vals) if name == "any" else all(vals)
+            want = name == "any"
+            for x in self.iter_lazy(args[0]):
+                if self.truth(x) is want:
+                    return want
+            return not want
         if name == "iter" and len(args) == 1:
-            if isinstance(args[0], _Iter):
+            if isinstance(args[0], (_Iter, _LazyGen)):
                 return args[0]
             return _Iter(list(self.iterate(args[0])))
         if name == "next" and args:
             src_ = args[0]
-            # eagerly evaluated generators / generator expressions are lists here: taking the next element consumes it
+            if isinstance(src_, _LazyGen):
+                return self._next(src_, list(args[1:2]))
             if isinstance(src_, (list, _Iter)) and not isinstance(src_, _Deque):
                 if src_:
                     return src_.pop(0)
@@ -2357,8 +2440,98 @@ class Interp:
 
 
 class _Iter(list):
-    """an iterator over already-computed items (iter(x), a called generator): consumed from the front"""
+    """an iterator over already-computed items (iter(x), a drained generator): consumed from the front"""
     retval = None
+
+
+class _GenClose(BaseException):
+    """raised inside a suspended generator body when the generator is closed"""
+
+
+class _GenState:
+    """the producer side of a lazily advanced generator.  The body runs in a helper thread that is handed control by
+    advance() and hands it back at every yield: exactly one of consumer and producer runs at any time, so the
+    interpreter state is used sequentially and the interleaving of their effects is Python's"""
+
+    def __init__(self, run):
+        self.run = run
+        self.to_gen = threading.Semaphore(0)
+        self.to_con = threading.Semaphore(0)
+        self.msg = None
+        self.thread = None
+        self.done = False
+        self.closing = False
+
+    def body(self):
+        self.to_gen.acquire()
+        try:
+            if self.closing:
+                raise _GenClose()
+            self.msg = ("done", self.run(self.emit))
+        except _GenClose:
+            self.msg = ("closed", None)
+        except BaseException as ex:      # noqa: BLE001 - everything is handed to the consumer
+            self.msg = ("raise", ex)
+        self.run = None
+        self.to_con.release()
+
+    def emit(self, v):
+        self.msg = ("yield", v)
+        self.to_con.release()
+        self.to_gen.acquire()
+        if self.closing:
+            raise _GenClose()
+        return None
+
+    def step(self, closing=False):
+        if self.thread is None:
+            if closing:
+                self.done = True
+                return ("closed", None)
+            self.thread = threading.Thread(target=self.body, daemon=True)
+            self.thread.start()
+        self.closing = closing
+        self.to_gen.release()
+        self.to_con.acquire()
+        kind, v = self.msg
+        if kind != "yield":
+            self.done = True
+            self.thread.join()
+        return kind, v
+
+
+class _LazyGen:
+    """a called generator function or a generator expression (consumer side)"""
+
+    def __init__(self, run, qual="<generator>"):
+        self._st = _GenState(run)
+        self.qual = qual
+        self.retval = None
+
+    def advance(self):
+        st = self._st
+        if st.done:
+            return ("done", None)
+        kind, v = st.step()
+        if kind == "raise":
+            raise v
+        if kind == "done":
+            self.retval = v
+        return kind, v
+
+    def close(self):
+        st = self._st
+        while not st.done:
+            kind, v = st.step(closing=True)
+            if kind == "raise":
+                raise v
+            # a body that yields again while being closed is ignored (Python raises RuntimeError)
+
+    def __del__(self):
+        try:
+            self.close()
+        except BaseException:            # noqa: BLE001
+            pass
 
 
 class _Deque(list):
@@ -2398,6 +2571,7 @@ class _DictView:
 
 
 _MISSING = object()
+_LAZY_AWARE = {"next", "iter", "any", "all"}
 
 
 def _sym(a):
